@@ -455,6 +455,20 @@ int link(const char *from, const char *to) {
   return r;
 }
 
+int unlink(const char *path);
+// remove() and unlinkat() reach the kernel without going through unlink(): route them here, so that every deletion is an event
+int remove(const char *path) {
+  struct stat st;
+  if (lstat(path, &st) == 0 && S_ISDIR(st.st_mode)) return rmdir(path);
+  return unlink(path);
+}
+int unlinkat(int dirfd, const char *path, int flags) {
+  static int (*real)(int, const char *, int);
+  if (!real) real = dlsym(RTLD_NEXT, "unlinkat");
+  if (dirfd == AT_FDCWD && !(flags & AT_REMOVEDIR)) return unlink(path);
+  return real(dirfd, path, flags);
+}
+
 int unlink(const char *path) {
   static int (*real)(const char *);
   if (!real) real = dlsym(RTLD_NEXT, "unlink");
